@@ -48,7 +48,24 @@ fn gen_output_case(rng: &mut Rng) -> Sexp {
             l(vec![tagged("simplify", vec![a(pf), a(*rng.pick(STRATEGIES))]), s(&x::theory_text(rng))])
         }
         1 => l(vec![tagged("translate", vec![a("gamma")]), s(&x::theory_text(rng))]),
-        2 => l(vec![tagged("translate", vec![a("completion")]), s(&x::theory_text(rng))]),
+        2 => {
+            // half of the cases: the tau* / natural theory of a program (always completable when the heads agree)
+            let t = if rng.chance(50) {
+                match x::program_text(rng).parse::<asp::Program>() {
+                    Ok(p) => {
+                        if rng.chance(50) {
+                            p.tau_star().to_string()
+                        } else {
+                            p.clone().natural().unwrap_or_else(|| p.tau_star()).to_string()
+                        }
+                    }
+                    Err(_) => x::theory_text(rng),
+                }
+            } else {
+                x::theory_text(rng)
+            };
+            l(vec![tagged("translate", vec![a("completion")]), s(&t)])
+        }
         3 => l(vec![tagged("translate", vec![a("tau-star")]), s(&x::program_text(rng))]),
         4 => l(vec![tagged("translate", vec![a("natural")]), s(&x::program_text(rng))]),
         5 => l(vec![tagged("translate", vec![a("mu")]), s(&x::program_text(rng))]),
